@@ -1241,9 +1241,58 @@ func (fc *FnCtx) doSelect(x *ssa.Select) {
 	}
 	fc.abstractedNote("select chooses any of its cases; received values are arbitrary")
 	fc.vals[x] = Val{Tuple: tup}
+	// "at select#k: set g = e" with $index bound to the chosen case
+	if fc.contract != nil {
+		ord := 0
+		var sels []*ssa.Select
+		for _, b := range fc.fn.Blocks {
+			for _, in := range b.Instrs {
+				if sl, ok := in.(*ssa.Select); ok {
+					sels = append(sels, sl)
+				}
+			}
+		}
+		sort.Slice(sels, func(i, j int) bool { return sels[i].Pos() < sels[j].Pos() })
+		for i, sl := range sels {
+			if sl == x {
+				ord = i + 1
+			}
+		}
+		for _, aa := range fc.contract.Asserts {
+			if aa.Anchor != "select" || aa.Ord != ord {
+				continue
+			}
+			aa.Matched++
+			sc := fc.funcScope(fc.env, fc.entryEnv, nil)
+			sc.pos = x.Pos()
+			sc.mode = "site"
+			sc.extra = map[string]specVal{"$index": {t: idx, ty: tInt}}
+			if aa.Set != nil {
+				t, _ := sc.tr(aa.Set.E)
+				if _, ok := fc.ghostTypes[aa.Set.Name]; !ok {
+					fc.fail("set of undeclared ghost %s", aa.Set.Name)
+				}
+				fc.assign("g_"+aa.Set.Name, t)
+			} else {
+				fc.assert("assert", fmt.Sprintf("%s:select#%d.assert#%d", fc.name, ord, aa.Cl.N), sc.trBool(aa.Cl.E), aa.Cl.Src, x.Pos(), false)
+			}
+		}
+	}
 }
 
 func (fc *FnCtx) doGo(x *ssa.Go) {
+	// call-site requires clauses apply to the arguments evaluated at the go statement
+	if specs := fc.siteSpecs(x); len(specs) > 0 {
+		s := fc.buildSite(x)
+		for _, cs := range specs {
+			cs.Matched++
+			sc := fc.siteScope(s, fc.env, fc.entryEnv)
+			for _, r := range cs.Requires {
+				name := fmt.Sprintf("%s:go(%s)#%d.requires#%d", fc.name, cs.Callee, fc.callOrdOf[x][cs.Callee], r.N)
+				fc.assert("call-requires", name, sc.trBool(r.E), r.Src, s.pos, false)
+			}
+		}
+	}
 	fc.volatile = fc.volatileSet
 	fc.abstractedNote("go statement: the spawned body is not part of this function's proof; memory it may write is treated as volatile")
 }
